@@ -215,3 +215,12 @@ def set_vptr(ex, st, objptr, cls_mangled):
         raise KeyError('vtable ' + name)
     g = ex.global_ptr(st, name)
     ex.store(st, objptr, 8, Ptr(g.r, 16))
+
+
+def obligations(ex):
+    """the executor's own side conditions (array index < bound, pointer stays in its region, divisor != 0):
+    Bool that all of them hold on their paths"""
+    cs = [z3.Implies(path_cond(pc), c) for pc, c, _ in ex.oblig]
+    if not cs:
+        return z3.BoolVal(True)
+    return z3.And(*cs) if len(cs) > 1 else cs[0]
